@@ -564,6 +564,29 @@ def muc_selftest(ctx, trace):
             m = [dict(e) for e in ib]
             m[j[0]] = dict(m[j[0]], st=dict(m[j[0]]["st"], lay=["b"] + [x for x in m[j[0]]["st"]["lay"] if x != "b"]))
             bases.append(("unchanged but for the position of the payload among the children", m))
+    # error replies: a trace in which a malformed error reply made a call return an error that is no stanza
+    # error, followed by further stanzas (when the run has one)
+    def mal(tr):
+        sd = [k for k, e in enumerate(tr) if e.get("ev") == "send" and e["st"].get("shape") in ER_SHAPES_MAL and not e.get("part")]
+        return (len(sd) == 1 and any(e.get("ev") == "ret" and e.get("o") == "other" and e.get("c") == tr[sd[0]]["st"]["call"] for e in tr[sd[0]:])
+                and any(e.get("ev") == "send" for e in tr[sd[0] + 1:]) and not any(e.get("ev") in ("stuck", "panic", "rest") for e in tr))
+    sh = [t for t, tr in trs.items() if mal(tr)]
+    if sh:
+        sb = [{k: v for k, v in e.items() if k != "_line"} for e in trs[sh[0]]]
+        bases.append(("unchanged (malformed error reply)", [dict(e) for e in sb]))
+        j = [k for k, e in enumerate(sb) if e.get("ev") == "send" and e["st"].get("shape") in ER_SHAPES_MAL][0]
+        c = sb[j]["st"]["call"]
+        m = [dict(e) for e in sb]
+        m[j] = dict(m[j], st=dict(m[j]["st"], shape="wf"))
+        muts.append(("a decoding error returned although the room's error reply was well-formed", m))
+        m = [dict(e) for e in sb]
+        k = [k for k, e in enumerate(m) if e.get("ev") == "ret" and e.get("c") == c][0]
+        m[k] = dict(m[k], o="ok")
+        muts.append(("success returned for a request the room answered with a (malformed) error", m))
+        h = [k for k, e in enumerate(sb) if k > j and e.get("ev") == "handled" and e.get("ty") == "er" and e.get("call") == c]
+        if h:
+            muts.append(("the malformed error reply is never released (no stanza processed from there on)",
+                         [dict(e) for k, e in enumerate(sb) if not (k >= h[0] and e.get("ev") == "handled")]))
     p = ctx.path("muc-selftest.ndjson")
     line = 0
     with open(p, "w") as f:
